@@ -325,17 +325,64 @@ type SolveResult struct {
 
 var solverCmds = [][]string{
 	{"z3-new", "-smt2"},
-	{"z3", "-smt2"},
 	{"cvc5", "--lang=smt2", "--produce-models"},
+	{"z3-new", "-smt2", "smt.auto_config=false"},
+	{"z3", "-smt2"},
 }
 
-func runSolver(cmd []string, file string, timeout time.Duration) (string, string) {
-	ctx, cancel := context.WithTimeout(context.Background(), timeout+2*time.Second)
+type solverRun struct {
+	status string
+	out    string
+	name   string
+}
+
+// Solve races the back ends; the first definite answer (sat/unsat) wins and
+// the others are killed.
+func Solve(query, dir, name string, timeout time.Duration) SolveResult {
+	os.MkdirAll(dir, 0o755)
+	file := filepath.Join(dir, sanitizeFile(name)+".smt2")
+	os.WriteFile(file, []byte(query), 0o644)
+	start := time.Now()
+	// cheap first attempt: most queries are decided by z3-new within a fraction of a second
+	quick := 2 * time.Second
+	if st, out := runSolverCtx(context.Background(), solverCmds[0], file, quick); st == "sat" || st == "unsat" {
+		return SolveResult{Status: st, Solver: "z3-new", Millis: time.Since(start).Milliseconds(), Output: out}
+	}
+	ctx, cancel := context.WithCancel(context.Background())
+	defer cancel()
+	ch := make(chan solverRun, len(solverCmds))
+	for _, cmd := range solverCmds {
+		go func(cmd []string) {
+			st, out := runSolverCtx(ctx, cmd, file, timeout)
+			n := cmd[0]
+			if len(cmd) > 2 && cmd[0] == "z3-new" {
+				n = "z3-new(" + cmd[2] + ")"
+			}
+			ch <- solverRun{st, out, n}
+		}(cmd)
+	}
+	last := SolveResult{Status: "unknown"}
+	for range solverCmds {
+		r := <-ch
+		if r.status == "sat" || r.status == "unsat" {
+			return SolveResult{Status: r.status, Solver: r.name, Millis: time.Since(start).Milliseconds(), Output: r.out}
+		}
+		last = SolveResult{Status: "unknown", Solver: r.name, Millis: time.Since(start).Milliseconds(), Output: r.out}
+	}
+	return last
+}
+
+func runSolverCtx(parent context.Context, cmd []string, file string, timeout time.Duration) (string, string) {
+	ctx, cancel := context.WithTimeout(parent, timeout+2*time.Second)
 	defer cancel()
 	args := append([]string(nil), cmd[1:]...)
 	switch cmd[0] {
 	case "z3", "z3-new":
-		args = append(args, fmt.Sprintf("-T:%d", int(timeout.Seconds())))
+		secs := int(timeout.Seconds())
+		if secs < 1 {
+			secs = 1
+		}
+		args = append(args, fmt.Sprintf("-T:%d", secs))
 	case "cvc5":
 		args = append(args, fmt.Sprintf("--tlimit=%d", timeout.Milliseconds()))
 	}
@@ -355,26 +402,6 @@ func runSolver(cmd []string, file string, timeout time.Duration) (string, string
 		return "unknown", s
 	}
 	return "error", s
-}
-
-// Solve runs the portfolio: first definite answer wins.
-func Solve(query, dir, name string, timeout time.Duration) SolveResult {
-	os.MkdirAll(dir, 0o755)
-	file := filepath.Join(dir, sanitizeFile(name)+".smt2")
-	os.WriteFile(file, []byte(query), 0o644)
-	start := time.Now()
-	var last SolveResult
-	for _, cmd := range solverCmds {
-		st, out := runSolver(cmd, file, timeout)
-		last = SolveResult{Status: st, Solver: cmd[0], Millis: time.Since(start).Milliseconds(), Output: out}
-		if st == "unsat" || st == "sat" {
-			return last
-		}
-	}
-	if last.Status == "error" {
-		last.Status = "unknown"
-	}
-	return last
 }
 
 func sanitizeFile(s string) string {
